@@ -103,9 +103,9 @@ type Sim struct {
 	// Known is the set of "class|witness" keys of listed known findings.
 	Known     map[string]bool
 	knownHits map[string]*Violation
-	faults   map[string]int
-	probes   map[string]int
-	nontriv  bool
+	faults    map[string]int
+	probes    map[string]int
+	nontriv   bool
 }
 
 type waiter struct {
